@@ -119,9 +119,10 @@ def run_one(launch, root, timeout):
     return res
 
 
-def run_box(launches, root, jobs=8, timeout=30.0, deadline=None, confirm=True, on_result=None, keep_dirs=False):
+def run_box(launches, root, jobs=8, timeout=30.0, deadline=None, confirm=True, on_result=None, keep_dirs=False, max_ranks=None):
     """Run all launches, `jobs` at a time.  Returns (results, skipped): `skipped` are launches not started because the
-    deadline passed (the caller reports exhaustive=false).  Failures are re-run alone with 4x the timeout."""
+    deadline passed (the caller reports exhaustive=false).  Failures are re-run alone with 4x the timeout (confirm=True);
+    max_ranks bounds the total number of MPI processes in flight (in addition to `jobs`)."""
     os.makedirs(root, exist_ok=True)
     todo = list(launches)[::-1]
     running = []
@@ -155,6 +156,8 @@ def run_box(launches, root, jobs=8, timeout=30.0, deadline=None, confirm=True, o
         while todo and len(running) < jobs:
             if deadline is not None and time.time() > deadline:
                 skipped.extend(todo[::-1]); todo = []
+                break
+            if max_ranks is not None and running and sum(x[0].n for x in running) + todo[-1].n > max_ranks:
                 break
             l = todo.pop()
             running.append((l, _start(l, root), Result(l)))
